@@ -1,5 +1,4 @@
-import CollectionsC.Proofs.Stack
-import CollectionsC.Proofs.ArrayStep
+import CollectionsC.Proofs.StackMem
 /-! # C09 (stack half) — `CC_Stack` is LIFO
 
 Statements only (helpers: `Proofs/Stack.lean`, `Proofs/Array*.lean`).  Concrete model `CC.Stack`
@@ -59,21 +58,33 @@ theorem history_refines (ops : List SOp) (s : Stack) (m : Mem) (hinv : s.Inv) :
   | nil => exact ⟨rfl, rfl, hinv, rfl, rfl⟩
   | cons op ops ih =>
     obtain ⟨s1, s2, s3, s4, s5, s6, _⟩ := step_refines s op m hinv
-    obtain ⟨i1, i2, i3, i5, i6⟩ := ih (s.step op m).2.1 (s.step op m).2.2 s4 (by omega)
+    obtain ⟨i1, i2, i3, i5, i6⟩ := ih (s.step op m).2.1 (s.step op m).2.2 s4
     simp only [Stack.run, Spec.Seq.srun, List.map_cons, List.headD_cons, List.tail_cons]
     rw [← s2]
     exact ⟨by rw [← i1, ← s1], i2, i3, by rw [i5, s5], by rw [i6, s6]⟩
 
-/-- a push succeeds whenever the allocator does not refuse (and the capacity limit of 2^64−2 slots
-is not reached) -/
+/-- a push succeeds whenever the allocator does not refuse and the array is not at its capacity limit
+(`Arr.AtLimit`: the requested capacity would need more than `CC_MAX_ELEMENTS` bytes — reachable only
+with a growth function that overshoots; `C01.not_atLimit` discharges it for ordinary factors) -/
 theorem push_succeeds (s : Stack) (x : Nat) (m : Mem) (hinv : s.Inv)
-    (halloc : s.v.size = s.v.capacity → m.alloc.1 = true) (hmax : ¬ s.v.AtLimit) :
+    (halloc : s.v.size = s.v.capacity → (m.allocT s.v.triple).1 = true) (hmax : ¬ s.v.AtLimit) :
     (s.push x m).1 = .ok ∧ (s.push x m).2.1.abs = s.abs ++ [x] := by
   rcases (Arr.add_spec s.v x m hinv).1 with ⟨ok, habs, _⟩ | ⟨⟨hb, hfull⟩, _⟩
   · exact ⟨ok, habs⟩
   · rcases hb with ⟨_, h⟩ | ⟨_, h⟩
     · rw [halloc hfull] at h; simp at h
     · exact absurd h hmax
+
+/-- the `blocked` oracle of the refinement theorems pinned down: a push fails only on a full stack,
+with `CC_ERR_ALLOC` only when the allocator refused the request, with `CC_ERR_MAX_CAPACITY` only at
+the capacity limit; pop, peek and size are never blocked -/
+theorem push_blocked_only_if (s : Stack) (x : Nat) (m : Mem) (hinv : s.Inv) (h : (s.push x m).1 ≠ .ok) :
+    s.v.size = s.v.capacity ∧
+    (((s.push x m).1 = .errAlloc ∧ (m.allocT s.v.triple).1 = false) ∨
+     ((s.push x m).1 = .errMaxCapacity ∧ s.v.AtLimit)) := by
+  rcases (Arr.add_spec s.v x m hinv).1 with ⟨ok, _⟩ | ⟨⟨hb, hf⟩, _⟩
+  · exact absurd ok h
+  · exact ⟨hf, hb⟩
 
 /-! ## LIFO in its own vocabulary (the ideal stack) -/
 
@@ -180,50 +191,146 @@ theorem filter_refines (p : Nat → Bool) (s : Stack) (dgrow : Nat → Nat) (dex
     (((s.filter p dgrow dexGe m).1 = .errAlloc ∨ (s.filter p dgrow dexGe m).1 = .errMaxCapacity ∨
         (s.filter p dgrow dexGe m).1 = .errInvalidCapacity) ∧ s.abs ≠ [] ∧
       (s.filter p dgrow dexGe m).2.1 = none ∧
-      (s.filter p dgrow dexGe m).2.2.2.live = m.live ∧ (s.filter p dgrow dexGe m).2.2.2.fault = m.fault) ∨
+      Arr.own s.triple (s.filter p dgrow dexGe m).2.2.2 = Arr.own s.triple m ∧ (s.filter p dgrow dexGe m).2.2.2.fault = m.fault) ∨
     ((s.filter p dgrow dexGe m).1 = .ok ∧ s.abs ≠ [] ∧
       ∃ r, (s.filter p dgrow dexGe m).2.1 = some r ∧ r.abs = s.abs.filter p ∧ r.Inv ∧ r.v.grow = dgrow ∧
         (s.filter p dgrow dexGe m).2.2.1 = s.abs ∧
-        (s.filter p dgrow dexGe m).2.2.2.live = m.live + 3 ∧ (s.filter p dgrow dexGe m).2.2.2.fault = m.fault) :=
+        Arr.own s.triple (s.filter p dgrow dexGe m).2.2.2 = Arr.own s.triple m + 3 ∧ (s.filter p dgrow dexGe m).2.2.2.fault = m.fault) :=
   Stack.filter_spec p s dgrow dexGe m hinv
 
 /-! ## Constructor and destructor (wrapped construction: C08 part) -/
 
-/-- `cc_stack_new_conf` either yields an empty sound stack owning three blocks, or no object with a
-balanced ledger (the header is released when the inner array constructor fails) -/
-theorem new_ledger (cap : Nat) (grow : Nat → Nat) (exGe : Nat → Bool) (m : Mem) :
-    (((Stack.new cap grow exGe m).1 = .errAlloc ∨ (Stack.new cap grow exGe m).1 = .errInvalidCapacity) ∧
-      (Stack.new cap grow exGe m).2.1 = none ∧
-      (Stack.new cap grow exGe m).2.2.live = m.live ∧ (Stack.new cap grow exGe m).2.2.fault = m.fault) ∨
-    ((Stack.new cap grow exGe m).1 = .ok ∧
-      ∃ s, (Stack.new cap grow exGe m).2.1 = some s ∧ s.abs = [] ∧ s.Inv ∧ s.v.capacity = cap ∧ s.v.grow = grow ∧
-        (Stack.new cap grow exGe m).2.2.live = m.live + 3 ∧ (Stack.new cap grow exGe m).2.2.fault = m.fault) :=
-  Stack.new_spec cap grow exGe m
+/-- `cc_stack_new_conf` / `cc_stack_new` (triple `t`): either an empty sound stack owning three blocks
+of that triple, or no object with a balanced ledger (the header is released when the inner array
+constructor fails) -/
+theorem new_ledger (cap : Nat) (grow : Nat → Nat) (exGe : Nat → Bool) (m : Mem) (t : Triple) :
+    (((Stack.new cap grow exGe m t).1 = .errAlloc ∨ (Stack.new cap grow exGe m t).1 = .errInvalidCapacity) ∧
+      (Stack.new cap grow exGe m t).2.1 = none ∧
+      Arr.own t (Stack.new cap grow exGe m t).2.2 = Arr.own t m ∧ (Stack.new cap grow exGe m t).2.2.fault = m.fault) ∨
+    ((Stack.new cap grow exGe m t).1 = .ok ∧
+      ∃ s, (Stack.new cap grow exGe m t).2.1 = some s ∧ s.abs = [] ∧ s.Inv ∧ s.v.capacity = cap ∧ s.v.grow = grow ∧
+        Arr.own t (Stack.new cap grow exGe m t).2.2 = Arr.own t m + 3 ∧ (Stack.new cap grow exGe m t).2.2.fault = m.fault) :=
+  Stack.new_spec cap grow exGe m t
 
-theorem destroy_ledger (s : Stack) (m : Mem) (hlive : 3 ≤ m.live) :
-    (s.destroy m).live = m.live - 3 ∧ (s.destroy m).fault = m.fault := Stack.destroy_spec s m
+theorem destroy_ledger (s : Stack) (m : Mem) (hc : s.Coh) (hlive : 3 ≤ Arr.own s.triple m) :
+    Arr.own s.triple (s.destroy m) = Arr.own s.triple m - 3 ∧ (s.destroy m).fault = m.fault :=
+  Stack.destroy_spec s m hc hlive
 
 /-- **C09 from the constructor**: every interleaving on a freshly constructed stack of any accepted
-capacity and any expansion factor is LIFO -/
-theorem new_history_refines (cap : Nat) (grow : Nat → Nat) (exGe : Nat → Bool) (m0 : Mem) (s0 : Stack)
-    (hnew : (Stack.new cap grow exGe m0).2.1 = some s0) (ops : List SOp) :
-    let m1 := (Stack.new cap grow exGe m0).2.2
+capacity, any expansion factor and either allocator triple is LIFO; the stack keeps its three blocks -/
+theorem new_history_refines (cap : Nat) (grow : Nat → Nat) (exGe : Nat → Bool) (m0 : Mem) (t : Triple) (s0 : Stack)
+    (hnew : (Stack.new cap grow exGe m0 t).2.1 = some s0) (ops : List SOp) :
+    let m1 := (Stack.new cap grow exGe m0 t).2.2
     (s0.run ops m1).1 = (Spec.Seq.srun [] ops ((s0.run ops m1).1.map Out.blocked)).1 ∧
     (s0.run ops m1).2.1.abs = (Spec.Seq.srun [] ops ((s0.run ops m1).1.map Out.blocked)).2 ∧
-    (s0.run ops m1).2.1.Inv ∧ (s0.run ops m1).2.2.live = m0.live + 3 ∧ (s0.run ops m1).2.2.fault = m0.fault := by
+    (s0.run ops m1).2.1.Inv ∧ Arr.own t (s0.run ops m1).2.2 = Arr.own t m0 + 3 ∧
+    (s0.run ops m1).2.2.fault = m0.fault ∧ (s0.run ops m1).2.1.Coh ∧ (s0.run ops m1).2.1.triple = t := by
   intro m1
-  rcases Stack.new_spec cap grow exGe m0 with ⟨_, h, _⟩ | ⟨_, r, h1, h2, h3, h4, h5, h6, h7⟩
+  rcases Stack.new_spec cap grow exGe m0 t with ⟨_, h, _⟩ | ⟨_, r, h1, h2, h3, h4, h5, h6, h7⟩
   · rw [h] at hnew; simp at hnew
   · rw [h1] at hnew
     simp only [Option.some.injEq] at hnew
     subst hnew
-    have := history_refines ops r m1 h3 (by show 0 < (Stack.new cap grow exGe m0).2.2.live; omega)
+    obtain ⟨ht, hvt⟩ := Stack.new_triple cap grow exGe m0 t r h1
+    have := history_refines ops r m1 h3
     rw [h2] at this
-    obtain ⟨t1, t2, t3, t5, t6⟩ := this
-    exact ⟨t1, t2, t3, by rw [t5]; exact h6, by rw [t6]; exact h7⟩
+    obtain ⟨t1, t2, t3, _, t6⟩ := this
+    obtain ⟨o1, _, _, o4, o5⟩ := Stack.run_led ops r m1 h3
+    rw [hvt] at o1
+    exact ⟨t1, t2, t3, by rw [o1]; exact h6, by rw [t6]; exact h7, by unfold Stack.Coh; rw [o4, o5, hvt, ht],
+      by rw [o5, ht]⟩
+
+/-! ## History-level statements in the property's own vocabulary -/
+
+/-- **size = insertions − successful removals**, over any history of the ideal stack (blocked
+pushes — reported with an error status — count for nothing) -/
+theorem spec_size_history (ops : List SOp) : ∀ (xs : List Nat) (blks : List (Option Stat)),
+    (∀ b ∈ blks, b ≠ some .ok) →
+    ((Spec.Seq.srun xs ops blks).2.length : Int) =
+      xs.length + ((ops.zip (Spec.Seq.srun xs ops blks).1).map (fun p => Spec.Seq.sizeEffect p.1 p.2)).sum := by
+  induction ops with
+  | nil => intro xs blks _; simp [Spec.Seq.srun]
+  | cons op ops ih =>
+    intro xs blks hb
+    have hstep : ((Spec.Seq.sstep xs op (blks.headD none)).2.length : Int) =
+        xs.length + Spec.Seq.sizeEffect op (Spec.Seq.sstep xs op (blks.headD none)).1 := by
+      have hh : blks.headD none ≠ some .ok := by
+        cases blks with
+        | nil => simp
+        | cons b bs => exact hb b (by simp)
+      cases op with
+      | push x =>
+        cases hbl : blks.headD none with
+        | none => simp [Spec.Seq.sstep, Spec.Seq.push, Spec.Seq.add, Spec.Seq.sizeEffect]
+        | some st =>
+          have : st ≠ .ok := fun h => hh (by rw [hbl, h])
+          simp [Spec.Seq.sstep, Spec.Seq.sizeEffect, this]
+      | pop =>
+        simp only [Spec.Seq.sstep, Spec.Seq.pop, Spec.Seq.removeLast, Spec.Seq.sizeEffect]
+        by_cases h : xs = []
+        · simp [h]
+        · have : 0 < xs.length := List.length_pos_iff.2 h
+          simp [h]; omega
+      | peek => simp [Spec.Seq.sstep, Spec.Seq.sizeEffect]
+      | size => simp [Spec.Seq.sstep, Spec.Seq.sizeEffect]
+    have := ih (Spec.Seq.sstep xs op (blks.headD none)).2 blks.tail (fun b hb' => hb b (List.mem_of_mem_tail hb'))
+    simp only [Spec.Seq.srun, List.zip_cons_cons, List.map_cons, List.sum_cons]
+    rw [this, hstep]; omega
+
+theorem srun_append (ops1 ops2 : List SOp) : ∀ xs : List Nat,
+    (Spec.Seq.srun xs (ops1 ++ ops2) []).1 = (Spec.Seq.srun xs ops1 []).1 ++ (Spec.Seq.srun (Spec.Seq.srun xs ops1 []).2 ops2 []).1 ∧
+    (Spec.Seq.srun xs (ops1 ++ ops2) []).2 = (Spec.Seq.srun (Spec.Seq.srun xs ops1 []).2 ops2 []).2 := by
+  induction ops1 with
+  | nil => intro xs; exact ⟨rfl, rfl⟩
+  | cons op ops ih =>
+    intro xs
+    obtain ⟨i1, i2⟩ := ih (Spec.Seq.sstep xs op none).2
+    simp only [List.cons_append, Spec.Seq.srun, List.headD_nil, List.tail_nil]
+    exact ⟨by rw [i1], i2⟩
+
+/-- a well-bracketed program returns the stack to exactly what it was, whatever was underneath -/
+theorem spec_balanced_restores {ops : List SOp} (hb : Spec.Seq.Bal ops) : ∀ xs : List Nat,
+    (Spec.Seq.srun xs ops []).2 = xs := by
+  induction hb with
+  | nil => intro xs; rfl
+  | peek => intro xs; rfl
+  | size => intro xs; rfl
+  | @wrap y ops' _ ih =>
+    intro xs
+    have e : (SOp.push y :: ops') ++ [SOp.pop] = [SOp.push y] ++ (ops' ++ [SOp.pop]) := by simp
+    rw [e, (srun_append [SOp.push y] (ops' ++ [SOp.pop]) xs).2, (srun_append ops' [SOp.pop] _).2, ih]
+    simp [Spec.Seq.srun, Spec.Seq.sstep, Spec.Seq.push, Spec.Seq.add, Spec.Seq.pop, Spec.Seq.removeLast]
+  | append _ _ ih1 ih2 =>
+    intro xs
+    rw [(srun_append _ _ xs).2, ih1, ih2]
+
+/-- **LIFO over histories**: push `x`, run any well-bracketed program, pop — the pop reports exactly
+`x` (the most recently pushed element not yet popped) and the stack is what it was before the push -/
+theorem spec_lifo {ops : List SOp} (hb : Spec.Seq.Bal ops) (xs : List Nat) (x : Nat) :
+    (Spec.Seq.srun xs (.push x :: ops ++ [.pop]) []).1.getLast? = some { st := some .ok, val := some x } ∧
+    (Spec.Seq.srun xs (.push x :: ops ++ [.pop]) []).2 = xs := by
+  refine ⟨?_, spec_balanced_restores (Spec.Seq.Bal.wrap x hb) xs⟩
+  have e : (SOp.push x :: ops) ++ [SOp.pop] = [SOp.push x] ++ (ops ++ [SOp.pop]) := by simp
+  rw [e, (srun_append [SOp.push x] (ops ++ [SOp.pop]) xs).1, (srun_append ops [SOp.pop] _).1, spec_balanced_restores hb]
+  simp only [Spec.Seq.srun, Spec.Seq.sstep, Spec.Seq.push, Spec.Seq.add, Spec.Seq.pop, Spec.Seq.removeLast,
+    List.headD_nil]
+  rw [← List.append_assoc, List.getLast?_concat]
+  simp
+
+/-! Whole traversals and zip programs of the stack iterators: `C07Stack.traversal_complete`,
+`C07Stack.program_refines`, `C07Stack.zip_next_sim`. -/
 
 /-! ## Non-vacuity -/
-example : (Stack.mk (Arr.mk 2 2 [5, 0] (fun c => 2 * c))).Inv ∧ (Stack.mk (Arr.mk 2 2 [5, 0] (fun c => 2 * c))).abs = [5, 0] := by
+example : (Stack.mk (Arr.mk 2 2 [5, 0] (fun c => 2 * c) .conf) .conf).Inv ∧
+    (Stack.mk (Arr.mk 2 2 [5, 0] (fun c => 2 * c) .conf) .conf).abs = [5, 0] := by
   decide
+
+/-- a stack of capacity 1 whose factor 1.5 makes no progress at small capacities (`c * 3 / 2`): 14 calls
+across three growth steps, LIFO outputs, ledger balanced, no fault -/
+example :
+    let s : Stack := ⟨Arr.mk 0 1 [0] (fun c => c * 3 / 2) .conf, .conf⟩
+    let r := s.run [.push 1, .push 2, .pop, .push 3, .push 4, .push 5, .peek, .pop, .pop, .size, .pop, .pop, .pop, .peek] { live := 3 }
+    s.Inv ∧ r.1.map (·.val) = [none, none, some 2, none, none, none, some 5, some 5, some 4, some 2, some 3, some 1, none, none] ∧
+    r.2.1.abs = [] ∧ r.2.2.live = 3 ∧ r.2.2.fault = false ∧ r.2.1.Inv := by decide
 
 end CC.Properties.C09Stack
